@@ -128,6 +128,8 @@ def _anti_case(rng, tag="random"):
         tchroms = rng.sample(canon, rng.randint(1, 2)) + rng.sample(noncanon, 1)
     else:
         tchroms = rng.sample(noncanon, rng.randint(1, 2))  # no canonical contig targeted
+        if rng.random() < 0.5:
+            tchroms = [noncanon[0]]  # a short name (chrM / MT): longer canonical names are then skipped
     tg = _bait_rows(rng, tchroms, size, grid)
     mode = rng.random()
     if mode < 0.22:
